@@ -118,6 +118,12 @@ func scenarios() []scenario {
 		dump.File{Name: "y.yang", Text: `module y { ` + H("y") + ` typedef t { type int32; } identity b; grouping g { leaf gy { type t; } } container cy; }`},
 		dump.File{Name: "m.yang", Text: `module m { ` + H("m") + ` import x { prefix p; } include s1; typedef tm { type p:t; } identity im { base p:b; } leaf lm { type tm; } leaf lm2 { type p:t; } container um { uses p:g; } augment /p:cx { leaf am { type p:t; } } leaf rm { type identityref { base p:b; } } }`},
 		dump.File{Name: "s1.yang", Text: `submodule s1 { belongs-to m { prefix m; } import y { prefix p; } typedef ts { type p:t; } identity is { base p:b; } leaf ls { type ts; } leaf ls2 { type p:t; } container us { uses p:g; } augment /p:cy { leaf as { type p:t; } } leaf rs { type identityref { base p:b; } } }`})
+	// typedef derivation cycles: one error per member, whichever member is entered first
+	add("typedef-cycles", nil,
+		dump.File{Name: "ty.yang", Text: `module ty { ` + H("ty") + ` include tys; import tz { prefix tz; } typedef a { type b; } typedef b { type a; } typedef p { type q; } typedef r { type p; }
+ typedef x { type tz:y; } leaf la { type a; } leaf lp { type p; } leaf lx { type x; } typedef u1 { type union { type string; type u2; } } typedef u2 { type union { type u1; type int8; } } }`},
+		dump.File{Name: "tys.yang", Text: `submodule tys { belongs-to ty { prefix ty; } typedef q { type ty:r; } }`},
+		dump.File{Name: "tz.yang", Text: `module tz { ` + H("tz") + ` import ty { prefix ty; } typedef y { type ty:x; } leaf ly { type y; } }`})
 	// derivation chains that pass through different typedefs of the same name (across imports, and
 	// by shadowing in an inner scope)
 	add("same-named-typedef-chains", nil,
